@@ -343,7 +343,7 @@ func (w *world) registry(watch []Val) (Val, bool) {
 // after the connection is gone the session's cleanup runs in its own goroutine:
 // wait (bounded) for the state the property demands, then report what is there
 func (w *world) settledRegistry(watch []Val) Val {
-	d := 2 * time.Second
+	d := 4 * time.Second
 	if slowSettles > 8 {
 		d = 20 * time.Millisecond
 	}
@@ -445,7 +445,7 @@ func runCase(c Val) Val {
 			cl.conn.Write([]byte(text))
 			for {
 				// after TEARDOWN the end of the exchange is the server closing the connection
-				d := 3 * time.Second
+				d := 6 * time.Second
 				if teardown {
 					d = 2 * time.Second
 				}
